@@ -126,7 +126,11 @@ Definition gstep_events (d : disc) (k : nat) (g : graph) (t : tid) (st : state) 
       | [] => []
       | n :: _ =>
           match t_pc th with
-          | PWait => []
+          | PWait =>
+              match d, s_lock st with
+              | Guarded, None => EAcq t :: enter_events t     (* blocked in Lock(), finds the lock free *)
+              | _, _ => []
+              end
           | PEnter =>
               match d with
               | Unguarded => enter_events t
@@ -141,9 +145,7 @@ Definition gstep_events (d : disc) (k : nat) (g : graph) (t : tid) (st : state) 
                   fin_events t res ++
                   match d with
                   | Unguarded => obs_events k t res sh' (result_cell n (s_sh st) p)
-                  | Guarded =>
-                      ERel t :: obs_events k t res sh' (result_cell n (s_sh st) p) ++
-                      match s_waitq st with w :: _ => EAcq w :: enter_events w | [] => [] end
+                  | Guarded => ERel t :: obs_events k t res sh' (result_cell n (s_sh st) p)
                   end
               end
           end
